@@ -31,6 +31,8 @@ func runC07(p *Prog, r *Report) {
 	c07R3(p, r)
 	c07R4(p, r)
 	c07R5(p, r)
+	returnErrorDirtyRule(p, r, "C07.R6")
+	indexStableRule(p, r, "C07.R7")
 }
 
 func c07R1(p *Prog, r *Report) {
